@@ -71,7 +71,7 @@ int vfprintf(FILE *s, const char *f, va_list ap) { (void)s; (void)ap; return lib
 int vsscanf(const char *b, const char *f, va_list ap) { (void)b; (void)ap; return lib_n(f, 1); }
 int vfscanf(FILE *s, const char *f, va_list ap) { (void)s; (void)ap; return lib_n(f, 1); }
 int vscanf(const char *f, va_list ap) { (void)ap; return lib_n(f, 1); }
-int vswprintf(wchar_t *d, size_t n, const wchar_t *f, va_list ap) { (void)ap; if (d && n) d[0] = 0; return lib_w(f, 0); }
+int vswprintf(wchar_t *d, size_t n, const wchar_t *f, va_list ap) { (void)ap; __CPROVER_assert(d != 0, "C20: NULL buffer (failed allocation) passed to vswprintf"); if (d && n) d[0] = 0; return lib_w(f, 0); }
 int vfwprintf(FILE *s, const wchar_t *f, va_list ap) { (void)s; (void)ap; return lib_w(f, 0); }
 int vwprintf(const wchar_t *f, va_list ap) { (void)ap; return lib_w(f, 0); }
 int vswscanf(const wchar_t *b, const wchar_t *f, va_list ap) { (void)b; (void)ap; return lib_w(f, 1); }
